@@ -479,10 +479,12 @@ def unit_tokenizer_init_read(sess, ctx):
         rd = eng.st.new_obj("IReaderW", reader_fields(eng))
         gh["rreads"] = 0
         blk = fresh_seq("bytes", "blk")
-        rk = eng.choose(2, None, "reader: block / None")
+        rk = eng.choose(3, None, "reader: block / None / fails (device error)")
 
         def r_read(e, o, a, k):
             gh["rreads"] += 1
+            if rk == 2:
+                raise PyRaise("OSError", ("device error",))
             return blk if rk == 0 else None
         eng.iface[("IReaderW", "read")] = r_read
         if op == 0:
@@ -491,7 +493,10 @@ def unit_tokenizer_init_read(sess, ctx):
             eng.contracts["auditok.core.split"] = lambda e, f, sv, a, k: calls.append((tuple(a), dict(k))) or G
             eng.ctor_contracts["Queue"] = queue_ctor
             me = eng.st.new_obj("TokenizerWorker", {})
-            obs = Opq(tag="observers")
+            # the caller's list of observers: a list object of any length -- possibly still empty (observers may be appended
+            # to it until start_all()); the worker must keep THAT object
+            obs = Seq("list", Int(fresh_name("n_observers")), lambda i: Opq(), new_aid())
+            eng.assume(I(obs.n) >= 0)
             # every keyword split() reads for a reader input, each with a symbolic presence flag
             KEYS = ("min_dur", "max_dur", "max_silence", "drop_trailing_silence", "strict_min_dur", "validator", "val",
                     "energy_threshold", "eth", "use_channel", "uc")
@@ -511,7 +516,8 @@ def unit_tokenizer_init_read(sess, ctx):
                 eng.prove("C12:init:keyword-%s-reaches-split-unchanged" % K, ok and same_kw(kw[K], k.get(K)), props=P1214 + ("C15",))
             d = h.get("_detections")
             eng.prove("C12:init:empty-detection-list-own-inbox", isinstance(d, Seq) and d.kind == "list" and isinstance(d.n, int) and d.n == 0
-                      and isinstance(h.get("_inbox"), Ref) and h.get("_reader") == rd and h.get("_observers") is obs, props=P12)
+                      and isinstance(h.get("_inbox"), Ref) and h.get("_reader") == rd, props=P12)
+            eng.prove("C12:init:keeps-the-very-list-of-observers-it-was-given", h.get("_observers") is obs, props=P1214 + P13 + ("C15",))
             return None
         me, q = worker_obj(eng, "TokenizerWorker", {"_reader": rd})
         ib = Inbox()
@@ -523,7 +529,14 @@ def unit_tokenizer_init_read(sess, ctx):
                 return STOP
             raise PyRaise("Empty", ())
         ib.next = nxt
-        res = eng.run_function(ctx.fi(QW + "TokenizerWorker.read"), [], {}, me)
+        try:
+            res = eng.run_function(ctx.fi(QW + "TokenizerWorker.read"), [], {}, me)
+        except PyRaise as ex:
+            # a failing reader ends the tokenizer thread (the error escapes run()); it must not keep it busy for ever --
+            # a thread that never returns to its stop poll cannot be stopped
+            eng.prove("C14:read:a-reader-failure-escapes-after-one-attempt", ex.exc == "OSError" and rk == 2 and gh["rreads"] == 1 and not stop,
+                      props=P14 + P13)
+            return None
         eng.prove("C14:read:polls-the-stop-marker-once-before-reading", ib.gets == 1, props=P14)
         if stop:
             eng.prove("C14:read:after-a-stop-returns-end-of-stream-without-touching-the-reader", res is None and gh["rreads"] == 0,
